@@ -124,12 +124,27 @@ struct Mon {
   sup::Ctx& ctx;
   long case_id;
   long serial = 0;
+  bool cur_accept = false;  // model's verdict on the string handled last
+  std::string last_ok;      // the accepted string handled last
   Mon(sup::Ctx& c, long id) : ctx(c), case_id(id) {}
+
+  // a string followed, when it was rejected, by the accepted string handled before it: anything a rejected parse leaves
+  // behind (a memo, a half-written scratch result) shows in the second answer
+  void one_then_revisit(const std::string& s, const char* cls, bool e2e, bool revisit) {
+    std::string before = last_ok;
+    one(s, cls, e2e);
+    if (revisit && !cur_accept && !before.empty()) {
+      ctx.stat("C16.revisits_after_a_rejection");
+      one(before, "revisit-after-rejection", false);
+    }
+  }
 
   void one(const std::string& s, const char* cls, bool e2e) {
     if (s.find('\0') != std::string::npos) return;  // outside the domain "rule string" (documented in DESIGN.md)
     orc::Posix ep;
     bool ea = orc::parse_posix(s, &ep);
+    cur_accept = ea;
+    if (ea) last_ok = s;
     ctx.set_case("class=%s op=ParsePosixSpec hex=%s", cls, sup::hexs(s).c_str());
     cctz::PosixTimeZone r0, r1;
     prefill(&r0, 0x00);
@@ -283,11 +298,11 @@ int main(int argc, char** argv) {
     for (long i = 0; i < chunk; ++i) {
       int k = (int)rng.range(0, 9);
       if (k <= 4) {
-        m.one(g.sentence(), "sentence", i % 8 == 0);
+        m.one_then_revisit(g.sentence(), "sentence", i % 8 == 0, i % 3 == 0);
       } else if (k <= 8) {
-        m.one(g.mutate(g.sentence()), "mutant", i % 8 == 0);
+        m.one_then_revisit(g.mutate(g.sentence()), "mutant", i % 8 == 0, i % 3 == 0);
       } else {
-        m.one(g.random_bytes(), "random", false);
+        m.one_then_revisit(g.random_bytes(), "random", false, i % 3 == 0);
       }
     }
     ctx.stat("C16.distinct_nontrivial", ctx.distinct_local.size());
